@@ -676,6 +676,10 @@ type c07sel struct {
 	entry  ssa.Value       // the ranged session entry
 	events []ssa.Instruction
 	closes bool // the selected entries are handed to the session close
+	// selection extracted into a helper (`for _, e := range m.expiredEntries(idleOnly) { e.CloseWithErr(nil) }`):
+	// fn is the helper, outer the function calling it at via
+	outer *ssa.Function
+	via   *ssa.Call
 }
 
 // selector: fn ranges over the session table and selects entries for closing.
@@ -683,6 +687,61 @@ func (x *c07ctx) selector(fn *ssa.Function) *c07sel {
 	if s, ok := x.selMemo[fn]; ok {
 		return s
 	}
+	s := x.selectorDirect(fn)
+	if s == nil {
+		s = x.selectorVia(fn)
+	}
+	x.selMemo[fn] = s
+	return s
+}
+
+// selectorVia: fn does not range over the table itself but calls a helper that
+// does and returns the selected entries; fn hands (elements of) that result to
+// the session close.
+func (x *c07ctx) selectorVia(fn *ssa.Function) *c07sel {
+	var out *c07sel
+	allInstrs(fn, func(in ssa.Instruction) {
+		call, ok := in.(*ssa.Call)
+		if !ok || out != nil {
+			return
+		}
+		h := staticCallee(call)
+		if h == nil || h == fn || len(h.Blocks) == 0 || !x.p.IsRepoFn(h) {
+			return
+		}
+		inner := x.selectorDirect(h)
+		if inner == nil || len(inner.events) == 0 {
+			return
+		}
+		// the helper's result carries the selected entries
+		carries := false
+		allInstrs(h, func(hin ssa.Instruction) {
+			r, isRet := hin.(*ssa.Return)
+			if !isRet || r.Block() == h.Recover {
+				return
+			}
+			for _, res := range retResults(r) {
+				if res != nil && derivedFrom(res, inner.entry) {
+					carries = true
+				}
+			}
+		})
+		if !carries {
+			return
+		}
+		cp := *inner
+		cp.outer, cp.via = fn, call
+		allInstrs(fn, func(fin ssa.Instruction) {
+			if x.isSessionClose(fin, func(v ssa.Value) bool { return derivedFrom(v, call) }) {
+				cp.closes = true
+			}
+		})
+		out = &cp
+	})
+	return out
+}
+
+func (x *c07ctx) selectorDirect(fn *ssa.Function) *c07sel {
 	var s *c07sel
 	allInstrs(fn, func(in ssa.Instruction) {
 		r, ok := in.(*ssa.Range)
@@ -739,7 +798,6 @@ func (x *c07ctx) selector(fn *ssa.Function) *c07sel {
 			}
 		})
 	}
-	x.selMemo[fn] = s
 	return s
 }
 
@@ -864,6 +922,25 @@ func (s *c07sel) flagAt(ci ssa.CallInstruction) (k *bool, ok bool) {
 	for i, prm := range s.fn.Params {
 		if prm == s.flag && i < len(ci.Common().Args) {
 			a := ci.Common().Args[i]
+			if s.via != nil {
+				// the flag the helper receives: a constant, or a parameter of the
+				// outer function whose value is the constant at ci
+				if i >= len(s.via.Call.Args) {
+					return nil, false
+				}
+				a = s.via.Call.Args[i]
+				if op, isPrm := resolve(a).(*ssa.Parameter); isPrm {
+					a = nil
+					for j, q := range s.outer.Params {
+						if q == op && j < len(ci.Common().Args) {
+							a = ci.Common().Args[j]
+						}
+					}
+					if a == nil {
+						return nil, false
+					}
+				}
+			}
 			if isConstBool(a, true) {
 				t := true
 				return &t, true
@@ -1487,8 +1564,36 @@ func (x *c07ctx) r4() bool {
 // msg and returns nothing but entries it constructed with that parameter's
 // SessionID.
 func (x *c07ctx) createdWithSessID(call *ssa.Call, msg ssa.Value, depth int) bool {
+	return x.createdWithID(call, []ssa.Value{msg}, nil, depth)
+}
+
+// createdWithID: as above with the datagram known as any of msgs and its
+// SessionID known as any of ids (`m.newSession(msg.SessionID)`: the helper's
+// parameter is the ID itself).
+func (x *c07ctx) createdWithID(call *ssa.Call, msgs, ids []ssa.Value, depth int) bool {
+	isMsg := func(v ssa.Value) bool {
+		for _, m := range msgs {
+			if resolve(v) == resolve(m) {
+				return true
+			}
+		}
+		return false
+	}
+	isID := func(v ssa.Value) bool {
+		for _, m := range msgs {
+			if c07isFieldOf(v, x.fSessID, m) {
+				return true
+			}
+		}
+		for _, id := range ids {
+			if resolve(v) == resolve(id) {
+				return true
+			}
+		}
+		return false
+	}
 	if id := x.ctorArg(call, x.fID); id != nil {
-		return c07isFieldOf(id, x.fSessID, msg)
+		return isID(id)
 	}
 	callee := staticCallee(call)
 	if callee == nil || depth >= 2 || len(callee.Blocks) == 0 || !x.p.IsRepoFn(callee) {
@@ -1498,12 +1603,20 @@ func (x *c07ctx) createdWithSessID(call *ssa.Call, msg ssa.Value, depth int) boo
 	if idx < 0 {
 		return false
 	}
-	// the parameters that receive msg at this call site
-	var prms []*ssa.Parameter
+	// the parameters that receive msg / its SessionID at this call site
+	var prmMsgs, prmIDs []ssa.Value
 	for j, prm := range callee.Params {
-		if j < len(call.Call.Args) && resolve(call.Call.Args[j]) == resolve(msg) {
-			prms = append(prms, prm)
+		if j >= len(call.Call.Args) {
+			continue
 		}
+		if isMsg(call.Call.Args[j]) {
+			prmMsgs = append(prmMsgs, prm)
+		} else if isID(call.Call.Args[j]) {
+			prmIDs = append(prmIDs, prm)
+		}
+	}
+	if len(prmMsgs)+len(prmIDs) == 0 {
+		return false
 	}
 	any, good := false, true
 	allInstrs(callee, func(in ssa.Instruction) {
@@ -1527,13 +1640,7 @@ func (x *c07ctx) createdWithSessID(call *ssa.Call, msg ssa.Value, depth int) boo
 				good = false
 				continue
 			}
-			found := false
-			for _, prm := range prms {
-				if x.createdWithSessID(inner, prm, depth+1) {
-					found = true
-				}
-			}
-			if !found {
+			if !x.createdWithID(inner, prmMsgs, prmIDs, depth+1) {
 				good = false
 			}
 			any = true
